@@ -250,6 +250,16 @@ func c19Cached(maxChildren int) {
 		b.ReportSamples(v)
 		expectFanout("c19.dsamples", log, before, n, vEntry{op: "samples", i: v}, true, bbase)
 	}
+	// the very same metric allocated once more (same kind, name and tags): the multi reporter
+	// keeps no memory of allocations - every call is fanned out and gets its own child handles
+	before = len(log.entries)
+	base2 := log.nextH + 1
+	again := m.AllocateCounter("other", tags)
+	expectFanout("c19.alloc-again", log, before, n, vEntry{op: "alloc-counter", name: "other", tags: tags}, true, base2)
+	v2 := verifrt.Int64("v")
+	before = len(log.entries)
+	again.ReportCount(v2)
+	expectFanout("c19.count-again", log, before, n, vEntry{op: "count", i: v2}, true, base2)
 	before = len(log.entries)
 	m.Flush()
 	expectFanout("c19.cached.flush", log, before, n, vEntry{op: "flush"}, false, 0)
